@@ -158,3 +158,72 @@ def insert_noop_tree(root: str) -> dict:
                 fh.write(new)
             stats["modules"] += 1
     return stats
+
+
+class _ReturnExtractor(ast.NodeTransformer):
+    """`return <expr>` → `_sa_ret = <expr>; return _sa_ret` (extract-variable refactoring) for non-trivial expressions."""
+
+    def __init__(self):
+        self.count = 0
+
+    def _rewrite(self, stmts):
+        out = []
+        for st in stmts:
+            st = self.visit(st)
+            if isinstance(st, ast.Return) and st.value is not None and not isinstance(st.value, (ast.Name, ast.Constant)):
+                tmp = ast.Assign(targets=[ast.Name(id="_sa_ret", ctx=ast.Store())], value=st.value)
+                out.append(ast.copy_location(tmp, st))
+                out.append(ast.copy_location(ast.Return(value=ast.Name(id="_sa_ret", ctx=ast.Load())), st))
+                self.count += 1
+            else:
+                out.append(st)
+        return out
+
+    def generic_visit(self, node):
+        super().generic_visit(node)
+        for fld in ("body", "orelse", "finalbody"):
+            b = getattr(node, fld, None)
+            if isinstance(b, list) and b and isinstance(b[0], ast.stmt):
+                setattr(node, fld, self._rewrite_no_visit(b))
+        if isinstance(node, ast.Try):
+            for h in node.handlers:
+                h.body = self._rewrite_no_visit(h.body)
+        return node
+
+    def _rewrite_no_visit(self, stmts):
+        out = []
+        for st in stmts:
+            if isinstance(st, ast.Return) and st.value is not None and not isinstance(st.value, (ast.Name, ast.Constant)):
+                tmp = ast.Assign(targets=[ast.Name(id="_sa_ret", ctx=ast.Store())], value=st.value)
+                out.append(ast.copy_location(tmp, st))
+                out.append(ast.copy_location(ast.Return(value=ast.Name(id="_sa_ret", ctx=ast.Load())), st))
+                self.count += 1
+            else:
+                out.append(st)
+        return out
+
+
+def extract_returns_tree(root: str) -> dict:
+    """Third behaviour-preserving rewrite: every non-trivial returned expression is first bound to a local."""
+    base = os.path.join(root, "src", "onnx_ir")
+    stats = {"modules": 0, "returns_rewritten": 0}
+    for dp, _dn, fns in os.walk(base):
+        if "_thirdparty" in dp:
+            continue
+        for fn in fns:
+            if not fn.endswith(".py") or fn.endswith("_test.py"):
+                continue
+            path = os.path.join(dp, fn)
+            with open(path, encoding="utf-8") as fh:
+                src = fh.read()
+            tree = ast.parse(src)
+            tr = _ReturnExtractor()
+            tree = tr.visit(tree)
+            ast.fix_missing_locations(tree)
+            new = ast.unparse(tree) + "\n"
+            compile(new, path, "exec")
+            with open(path, "w", encoding="utf-8") as fh:
+                fh.write(new)
+            stats["modules"] += 1
+            stats["returns_rewritten"] += tr.count
+    return stats
